@@ -6,7 +6,7 @@ satisfies the coarse system with the right-hand side the CODE restricts (the res
 outside the fine grid), and `y = u + P e` on the fine grid.
 -/
 namespace Concrete
-open Stencil Scalar Cycle SparseLU
+open Stencil Scalar MGCycle SparseLU
 
 section Ordered
 variable {K : Type} [_root_.Field K] [LinearOrder K] [IsStrictOrderedRing K]
